@@ -212,7 +212,7 @@ void *Kernel::sys_malloc(size_t n) {
   Proc *p = cp();
   if (p) {
     Fault *flt = faults.empty() ? nullptr : match_fault(C_MALLOC, "");
-    if (flt) { note_fault("alloc_fail"); errno = ENOMEM; return nullptr; }
+    if (flt) { note_fault("alloc_fail"); Event e; e.call = C_MALLOC; e.a = (int64_t)n; e.ret = -1; e.err = ENOMEM; e.injected = true; emit(e); errno = ENOMEM; return nullptr; }
   }
   if (n > knobs.alloc_cap) { probe("alloc_over_cap"); errno = ENOMEM; return nullptr; }
   void *q = malloc(n ? n : 1);
@@ -224,7 +224,7 @@ void *Kernel::sys_realloc(void *o, size_t n) {
   Proc *p = cp();
   if (p) {
     Fault *flt = faults.empty() ? nullptr : match_fault(C_MALLOC, "");
-    if (flt) { note_fault("alloc_fail"); errno = ENOMEM; return nullptr; }
+    if (flt) { note_fault("alloc_fail"); Event e; e.call = C_MALLOC; e.a = (int64_t)n; e.ret = -1; e.err = ENOMEM; e.injected = true; emit(e); errno = ENOMEM; return nullptr; }
   }
   if (n > knobs.alloc_cap) { probe("alloc_over_cap"); errno = ENOMEM; return nullptr; }
   void *q = realloc(o, n ? n : 1);
